@@ -258,11 +258,15 @@ func (c *Ctx) tmplFunc(name string) *ssa.Function {
 // the constant layout a function of the pipeline hands to time.Time.Format.
 func (c *Ctx) dateAction() (before, layout string, found bool) {
 	t := c.fontTemplate()
-	fi := c.typeObj("type1", "fontInfo").Type().Underlying().(*types.Struct)
-	dateField := ""
-	for i := 0; i < fi.NumFields(); i++ {
-		if fi.Field(i).Type().String() == "time.Time" {
-			dateField = fi.Field(i).Name()
+	// the field of the template data that is filled from the font's time value, as a time or as
+	// its text in a constant layout (ext_d.go); by its type if the writer cannot be evaluated
+	dateField, preLayout, ok := c.dateDataField()
+	if !ok {
+		fi := c.typeObj("type1", "fontInfo").Type().Underlying().(*types.Struct)
+		for i := 0; i < fi.NumFields(); i++ {
+			if fi.Field(i).Type().String() == "time.Time" {
+				dateField = fi.Field(i).Name()
+			}
 		}
 	}
 	if dateField == "" {
@@ -293,7 +297,7 @@ func (c *Ctx) dateAction() (before, layout string, found bool) {
 			if !ok || len(fn.Ident) == 0 || fn.Ident[0] != dateField {
 				continue
 			}
-			layout := ""
+			layout := preLayout
 			if len(fn.Ident) == 2 && fn.Ident[1] == "Format" && len(cmds[0].Args) == 2 {
 				if sn, ok := cmds[0].Args[1].(*parse.StringNode); ok {
 					layout = sn.Text
@@ -358,4 +362,196 @@ func (c *Ctx) formatLayoutOf(fn *ssa.Function, depth int) (string, bool) {
 		return layouts[0], true
 	}
 	return "", false
+}
+
+// ---- typed view of the template: which value an action prints
+//
+// tmplPrint describes one printing action: the value it prints as an expression over the
+// template data (`.FontName`, `.Subrs[]` for the element of a collection that is ranged over,
+// `.CharStringList[].Code` for a field of such an element), the Go type of that value, and the
+// functions applied to it (a leading call such as `len X` first, then the functions of the
+// pipeline).  Variables and the dot of `range`/`with` are resolved, so `range $n, $cs := .M` with
+// `$cs` and `range .L` with `.Code` are described alike.
+type tmplPrint struct {
+	expr  string
+	typ   types.Type
+	funcs []string
+	elem  bool   // the value is (a part of) an element of a collection ranged over
+	fmt   string // the constant format of a leading `printf "…" X`
+}
+
+type tmplVal struct {
+	expr string
+	typ  types.Type
+	elem bool
+}
+
+func (c *Ctx) tmplPrints() map[parse.Node]tmplPrint {
+	t := c.fontTemplate()
+	pkg := c.pkg("type1").Types
+	out := map[parse.Node]tmplPrint{}
+	sel := func(v tmplVal, names []string) tmplVal {
+		for _, n := range names {
+			v.expr += "." + n
+			if v.typ != nil {
+				obj, _, _ := types.LookupFieldOrMethod(v.typ, true, pkg, n)
+				switch o := obj.(type) {
+				case *types.Var:
+					v.typ = o.Type()
+				case *types.Func:
+					v.typ = nil
+					if res := o.Type().(*types.Signature).Results(); res.Len() >= 1 {
+						v.typ = res.At(0).Type()
+					}
+				default:
+					v.typ = nil
+				}
+			}
+		}
+		return v
+	}
+	type env struct {
+		dot  tmplVal
+		vars map[string]tmplVal
+	}
+	operand := func(e env, n parse.Node) (tmplVal, bool) {
+		switch a := n.(type) {
+		case *parse.DotNode:
+			return e.dot, true
+		case *parse.FieldNode:
+			v := e.dot
+			if v.expr == "." {
+				v.expr = ""
+			}
+			return sel(v, a.Ident), true
+		case *parse.VariableNode:
+			if a.Ident[0] == "$" {
+				return sel(tmplVal{expr: "", typ: nil}, a.Ident[1:]), true
+			}
+			if v, ok := e.vars[a.Ident[0]]; ok {
+				return sel(v, a.Ident[1:]), true
+			}
+		}
+		return tmplVal{}, false
+	}
+	elemOf := func(v tmplVal) (key, val tmplVal) {
+		key = tmplVal{expr: v.expr + "[key]", elem: true}
+		val = tmplVal{expr: v.expr + "[]", elem: true}
+		if v.typ != nil {
+			switch u := v.typ.Underlying().(type) {
+			case *types.Map:
+				key.typ, val.typ = u.Key(), u.Elem()
+			case *types.Slice:
+				key.typ, val.typ = types.Typ[types.Int], u.Elem()
+			case *types.Array:
+				key.typ, val.typ = types.Typ[types.Int], u.Elem()
+			}
+		}
+		return
+	}
+	// value and leading function of a pipeline's first command
+	fmtOf := func(p *parse.PipeNode) string {
+		if p != nil && len(p.Cmds) > 0 && len(p.Cmds[0].Args) == 3 {
+			if id, ok := p.Cmds[0].Args[0].(*parse.IdentifierNode); ok && id.Ident == "printf" {
+				if sn, ok := p.Cmds[0].Args[1].(*parse.StringNode); ok {
+					return sn.Text
+				}
+			}
+		}
+		return ""
+	}
+	first := func(e env, p *parse.PipeNode) (tmplVal, []string, bool) {
+		if p == nil || len(p.Cmds) == 0 || len(p.Cmds[0].Args) == 0 {
+			return tmplVal{}, nil, false
+		}
+		args := p.Cmds[0].Args
+		if id, ok := args[0].(*parse.IdentifierNode); ok {
+			if _, isFmt := args[len(args)-1].(*parse.StringNode); len(args) == 3 && id.Ident == "printf" && !isFmt {
+				// printf "format" X
+				if _, ok := args[1].(*parse.StringNode); ok {
+					if v, ok := operand(e, args[2]); ok {
+						return v, []string{id.Ident}, true
+					}
+				}
+			}
+			if len(args) == 2 {
+				if v, ok := operand(e, args[1]); ok {
+					return v, []string{id.Ident}, true
+				}
+			}
+			return tmplVal{}, []string{id.Ident}, false
+		}
+		v, ok := operand(e, args[0])
+		return v, nil, ok && len(args) == 1
+	}
+	var walk func(n parse.Node, e env)
+	walk = func(n parse.Node, e env) {
+		switch n := n.(type) {
+		case *parse.ListNode:
+			if n == nil {
+				return
+			}
+			for _, x := range n.Nodes {
+				walk(x, e)
+			}
+		case *parse.ActionNode:
+			v, funcs, ok := first(e, n.Pipe)
+			if len(n.Pipe.Decl) > 0 {
+				if ok && len(n.Pipe.Decl) == 1 && len(funcs) == 0 && len(n.Pipe.Cmds) == 1 {
+					e.vars[n.Pipe.Decl[0].Ident[0]] = v
+				}
+				return
+			}
+			if !ok {
+				return
+			}
+			for _, cmd := range n.Pipe.Cmds[1:] {
+				name := "?"
+				if len(cmd.Args) >= 1 {
+					if id, ok := cmd.Args[0].(*parse.IdentifierNode); ok {
+						name = id.Ident
+					}
+				}
+				funcs = append(funcs, name)
+			}
+			out[n] = tmplPrint{expr: v.expr, typ: v.typ, funcs: funcs, elem: v.elem, fmt: fmtOf(n.Pipe)}
+		case *parse.IfNode:
+			walk(n.List, e)
+			walk(n.ElseList, e)
+		case *parse.WithNode:
+			inner := e
+			if v, funcs, ok := first(e, n.Pipe); ok && len(funcs) == 0 {
+				inner.dot = v
+			} else {
+				inner.dot = tmplVal{expr: "?"}
+			}
+			walk(n.List, inner)
+			walk(n.ElseList, e)
+		case *parse.RangeNode:
+			inner := env{dot: tmplVal{expr: "?"}, vars: map[string]tmplVal{}}
+			for k, v := range e.vars {
+				inner.vars[k] = v
+			}
+			if v, funcs, ok := first(e, n.Pipe); ok && len(funcs) == 0 && len(n.Pipe.Cmds) == 1 {
+				key, val := elemOf(v)
+				inner.dot = val
+				switch len(n.Pipe.Decl) {
+				case 1:
+					inner.vars[n.Pipe.Decl[0].Ident[0]] = val
+				case 2:
+					inner.vars[n.Pipe.Decl[0].Ident[0]] = key
+					inner.vars[n.Pipe.Decl[1].Ident[0]] = val
+				}
+			}
+			walk(n.List, inner)
+			walk(n.ElseList, e)
+		}
+	}
+	root := tmplVal{expr: ".", typ: types.NewPointer(c.typeObj("type1", "fontInfo").Type())}
+	for _, sec := range t.order {
+		if tree := t.trees[sec]; tree != nil && tree.Root != nil {
+			walk(tree.Root, env{dot: root, vars: map[string]tmplVal{}})
+		}
+	}
+	return out
 }
